@@ -2,7 +2,9 @@
 from contracts import roms_forcing as F
 from contracts import timekeeper as K
 
-UNITS = [F.Update("bracket"), F.Update("start"), F.Velocity(), K.TKTime2Step()]
+from contracts import roms_init as I
+
+UNITS = [F.ForcingInit(), F.Update("bracket"), F.Update("start"), F.Velocity(), K.TKTime2Step(), F.ForcingStepsCoverage()] + list(I.FORCING_IO_UNITS) + list(I.SCAN_UNITS)
 LEMMAS = []
 NATIVE = [dict(name="frame layouts x file partitions x start offsets x direction on real Grid/TimeKeeper/Forcing", harness="forcing_layouts_bounded", kind="bounded")]
 LEVEL = "proof"
